@@ -288,7 +288,14 @@ func runC10(c *core.Ctx, o Options) {
 	checkFreshMessages(c, s, "Y7")
 	// ---- Y8 the batch is delivered whole: SendBatch walks the entire list through the same blocking enqueue as Send
 	checkBatchDelivery(c, "Y8")
-	c.RuleMin = map[string]int{"Y1": 1, "Y2": 1, "Y3": 1, "Y4": 2, "Y5": 1, "Y6": 2, "Y7": 3, "Y8": 3}
+	// ---- Y9 a ResendRequest that arrives while the session's own TestRequest is outstanding is still served: the all-types
+	// handler, which runs first, restores the logged-on state
+	if hs := s.handlers(true, "ALL", "start"); len(hs) == 1 && hs[0].Fn != nil {
+		s.checkRestore("Y9", hs[0].Fn)
+	} else {
+		c.Ob("Y9", "start", "all-types incoming handler restores the logged-on state", 0).Fail("no all-types incoming handler is registered when the timers start: in WaitingTestReqAnswer a ResendRequest would be rejected instead of served")
+	}
+	c.RuleMin = map[string]int{"Y1": 1, "Y2": 1, "Y3": 1, "Y4": 2, "Y5": 1, "Y6": 2, "Y7": 3, "Y8": 3, "Y9": 1}
 	c.MinObl = 8
 }
 
